@@ -385,7 +385,7 @@ def oracle(line, out, want=("C04", "C05", "C06", "C07")):
                 if got != exp:
                     return "vectored pre-check says %d for split %s but %d for the contiguous bytes" % (got, [len(p) for p in parts], exp)
         elif name in ("IR", "II", "IS", "IE"):
-            cur_cap = int(op[2] if name in ("IR", "II") else op[1]); appended = []; cur_len = 20
+            cur_cap = int(op[2] if name in ("IR", "II") else op[1]); appended = []; cur_len = None   # init may add SOFTWARE / ERROR-CODE
             if g[0] == "i=1" and cur_cap < 20 and "C07" in want:
                 return "message initialised in a %d-byte buffer" % cur_cap
         elif name[0] == "A" and g[0] != "a=x":
@@ -393,7 +393,7 @@ def oracle(line, out, want=("C04", "C05", "C06", "C07")):
             if "C07" in want and cur_cap is not None:
                 if int(ln) > cur_cap:
                     return "after append the message length %s exceeds the %d-byte buffer" % (ln, cur_cap)
-                if int(r) != 0 and int(ln) != cur_len:
+                if int(r) != 0 and cur_len is not None and int(ln) != cur_len:
                     return "append reported failure (%s) but the message length changed %d -> %s" % (r, cur_len, ln)
             cur_len = int(ln)
         elif name == "F" and not g[0].startswith("f=x"):
@@ -478,3 +478,59 @@ def oracle(line, out, want=("C04", "C05", "C06", "C07")):
             if op[3] == "@" and last_built and "C07" in want and last_built[1] not in ("n",) and st in (1, 2, 3):
                 return "a message the library finished itself does not pass its own validation (status %d)" % st
     return None
+
+
+# ------------------------------------------------------------------ shared check body
+COQ_TARGETS_COMMON = ["Stun/Extract_Stun.vo", "Stun/StunUtilsProofs.vo"]
+TRUSTED = [
+    "hand-written models coq/Stun/StunModel.v + StunAgentModel.v (message grammar, lookup, builder, validate/finish/init) tied to "
+    "stun/*.c by differential execution: model extracted with ExtrOcamlBasic only (Z inductive) vs harness/stun_h.c compiled from "
+    "/repo's working tree under ASan+UBSan with exactly-sized heap buffers (empty buffers are one-past-the-end pointers)",
+    "Gallina specifications of SHA-1 / HMAC-SHA1 / MD5 / CRC-32 (coq/Crypto, RFC 3174/2202/1321 vectors as Examples); gnutls is compared "
+    "with them on every HMAC/MD5 the correspondence computes; cryptographic unforgeability is outside every theorem",
+    "tables regenerated from source on every run: crc32_tab[] + typo constants (Gen/Crc32Tab.v), stun_strerror (Gen/StunErrTab.v), "
+    "stun_padding/stun_align via tools/c2v.py (Gen/StunUtils.v)",
+    "independent python encoder/parser/HMAC/CRC (props/stun_gen.py, hashlib/zlib) used by generators and implementation-side oracles",
+    "not modelled: stun_debug output, software strings with non-ASCII lead bytes (next_utf8_char may skip the terminator), sockaddr "
+    "handling of families other than AF_INET/AF_INET6, usage-level functions (bind/ice/turn process+create) which are only executed "
+    "under ASan in the harness of C05"]
+
+
+def run_stun(chk, props_v, kinds, want, nq, nt, what):
+    gi, err = pregen()
+    if gi is None:
+        chk.broken_obligation("translator/table-extractor", err)
+    chk.prove([props_v], COQ_TARGETS_COMMON)
+    model, o = build_model()
+    if not model:
+        chk.broken_obligation("extract-build", o[-2000:])
+    impl, o = build_impl()
+    if not impl:
+        chk.broken_obligation("impl-build", o[-3000:])
+    if impl:
+        n = nq if chk.tier == "quick" else nt
+        cases = corpus_cases() + [gen_case(chk.rng, i, kinds) for i in range(n)]
+        orc = lambda line, out: oracle(line, out, want)
+        vlib.correspond(chk, cases, model or impl, impl, oracle=orc, what=what if model else what + "-oracle-only",
+                        nontrivial=lambda l, o_: o_ is not None and ("v=0" in o_ or "f=" in o_ or "vl=" in o_ or "vf=" in o_ or " v=" in o_))
+
+
+def corpus_cases():
+    """minimised triggers of the defects found so far (they run first)"""
+    k = KNOWN_HEX
+    return [
+        ("k0 0 1 %s IR 1 25 000102030405060708090a0b0c0d0e0f ; AB 6 61 ; AB 6 6162 ; F 7077" % k, "corpus"),     # append padding overrun
+        ("k1 1 1 %s V 61626364:7077 1 000100102112a442000102030405060708090a0b000600046162636400080000" % k, "corpus"),   # zero-length MI
+        ("k2 1 2 %s V :7077 1 000100282112a442000102030405060708090a0b00060000001400000015000161000000000800140000000000000000000000000000000000000000" % k, "corpus"),  # empty USERNAME/REALM, long-term
+        ("k3 1 0 %s VF 1 24 0 3 000100 - 042112a442000102030405060708090a0b80220000 ; VF 1 24 0 3 - 000100 042112a442000102030405060708090a0b80220000" % k, "corpus"),  # empty buffers
+        ("k4 1 5 %s IR 1 0 000102030405060708090a0b0c0d0e0f ; F n ; IR 1 19 000102030405060708090a0b0c0d0e0f ; A32 24 1 ; F 7077" % k, "corpus"),  # header does not fit
+    ]
+
+
+def replay_stun(chk, path):
+    import json
+    r = json.load(open(path))["replay"]
+    impl, o = build_impl()
+    rc, so, se = vlib.run_lines(impl, r.get("case", "") + "\n")
+    print("impl:", so.strip()[:2000], "\nstderr:", se[-1500:], "\noracle:", oracle(r.get("case", ""), so.strip()))
+    return 0
